@@ -138,7 +138,16 @@ impl Manifest {
         let mut begin = false;
 
         for value in stream {
-            let value = value?;
+            let value = match value {
+                Ok(value) => value,
+                // A crash in the middle of an append leaves a truncated last record. It belongs
+                // to a transaction that was never acknowledged, so the log ends here.
+                Err(e) if e.is_eof() => {
+                    warn!("manifest: truncated record at the end of the log");
+                    break;
+                }
+                Err(e) => return Err(e.into()),
+            };
             match value {
                 ManifestOperation::Begin => begin = true,
                 ManifestOperation::End => {
